@@ -309,6 +309,39 @@ def ob_subtemplate_scoping(ntup: int, c1x: bool, c2x: bool, kw: bool) -> bool:
     return out == 'outer|{%s,subdefault}[let]|outer|{outer,subdefault}|outer' % inside
 
 
+class Raiser:
+    def __init__(self, exc):
+        self.exc = exc
+
+    def __call__(self):
+        raise self.exc
+
+
+T_FALL = cooked('<dtml-with w mapping><dtml-var x></dtml-with>')
+T_FALL_IN = cooked('<dtml-in seq mapping><dtml-var x></dtml-in>')
+
+
+def ob_no_fallthrough(kind: int, inner: bool) -> bool:
+    """the highest-priority source defining the name wins even when its value is a callable that raises a lookup-looking
+    exception: the error propagates, a lower-priority definition is NOT used instead"""
+    if kind == 0:
+        exc = KeyError('zzz')
+    elif kind == 1:
+        exc = NameError('zzz')
+    elif kind == 2:
+        exc = KeyError('x')
+    else:
+        exc = AttributeError('x')
+    try:
+        if inner:
+            out = T_FALL_IN(seq=[{'x': Raiser(exc)}], x='LOWER')
+        else:
+            out = T_FALL(w={'x': Raiser(exc)}, x='LOWER')
+    except (KeyError, NameError, AttributeError) as e:
+        return e is exc
+    return False
+
+
 OBLIGATIONS = [
     Ob('six_sources_tuple_client', ob_six_tuple, [], timeout=tier(100, 300), data='7 bools: kw, var, client2, client1, call mapping, construction kw, construction mapping define x',
        selectors='<dtml-var x>, client passed as a 2-tuple'),
@@ -323,6 +356,8 @@ OBLIGATIONS = [
     Ob('uncalled_in_expr', ob_uncalled_in_expr, ['0 <= kind <= 2', 'len(payload) <= 2'], timeout=tier(100, 300),
        data='payload str len <= 2; kind', selectors='<dtml-var "rec(f)">, <dtml-if "rec(f)">'),
 ]
+OBLIGATIONS.append(Ob('no_fallthrough_on_raising_callable', ob_no_fallthrough, ['0 <= kind <= 3'], timeout=tier(100, 300), data='exception kind raised by the callable value, block kind',
+                      selectors='callable in a with / in binding raising KeyError / NameError / AttributeError; same name defined in the call keywords'))
 OBLIGATIONS.append(Ob('subtemplate_scoping', ob_subtemplate_scoping, ['0 <= ntup <= 3'], timeout=tier(150, 400), data='client shape (object, 1-/2-/3-tuple), which clients define x, keyword argument bit',
                       selectors='sub-template called from an expression inside a let block; bindings after the call'))
 for _k in NEST:
